@@ -62,12 +62,29 @@ def main() -> int:
         if not usable(run, r):
             continue
         wb = {"doc": j["doc"], "cfg": inf["cfg"], "case": inf["label"]}
+        if inf.get("deterministic_valid"):
+            # hand-built, known-valid documents: every operation must have been generated
+            from .. import docs as _docs
+            have = {(a["x"].get("method"), a["x"].get("path")) for a, _ in actions_results(r) if a["a"] == "endpoint_info" and not a["x"].get("unmatched")}
+            for path, m, op, item in _docs.iter_ops(j["doc"]):
+                run.ev.count("valid_operations_expected")
+                if (m, path) not in have:
+                    run.vd.violation("valid_operation_not_generated", f"{inf['label']}: {m.upper()} {path} of a valid document was not generated: {[d['detail'] for d in r.get('diags') or [] if path in (d.get('header') or '')][:1]}", wb)
         for a, res in actions_results(r):
             if a["a"] == "endpoint_info":
                 x = a["x"]
                 if x.get("unmatched") or res.get("action_exc"):
                     run.ev.count("endpoint_unmatched")
                     continue
+                # census: every parameter / supported request media type the document declares reaches the generated function
+                manp = sorted([p["name"], loc] for loc, ps in x["params"].items() for p in ps)
+                run.ev.count("parameter_censuses")
+                if manp != x.get("doc_params", manp):
+                    lost = [p for p in x["doc_params"] if p not in manp]
+                    run.vd.violation("parameter_dropped_silently" if lost else "parameter_from_nowhere", f"{a['module']}: document declares parameters {x['doc_params']} but the generated operation has {manp}", dict(wb, module=a["module"]))
+                op_diagnosed = any(f"{x['method'].upper()} {x['path']}" in (dg.get("header") or "") for dg in r.get("diags") or [])
+                if x.get("doc_media") is not None and [m for m in x["doc_media"] if m not in x.get("man_media", [])] and not op_diagnosed:
+                    run.vd.violation("request_media_type_dropped", f"{a['module']}: supported request media types {x['doc_media']} declared but only {x.get('man_media')} generated", dict(wb, module=a["module"]))
                 sd = res.get("sync_detailed")
                 if sd:
                     cl = next((p for p in sd["params"] if p["name"] == "client"), None)
